@@ -47,7 +47,15 @@ def run(ctx):
     nf = 2 if tier == "quick" else 3
     for subset in (False, True):
         conds.append(xh.Cond(f"per-file exception funnel nfiles={nf} subset={subset}", "C16.py", "_funnel", {"nfiles": nf, "subset": subset}, timeout=tmo * 3, twin="_funnel_reach"))
+    # the content of the files themselves
+    conds.append(xh.Cond("annotate: content with unparseable expressions / undecodable bytes x style x options", "RD.py", "_rd", {}, timeout=tmo * 3, twin="_rd_reach"))
+    conds.append(xh.Cond("spdx: undecodable LicenseRef- licence texts", "RD.py", "_bomrd", {}, timeout=tmo, twin="_bomrd_reach"))
+    nbytes = 3 if tier == "quick" else 4
+    conds.append(xh.Cond(f"covered file: every byte string up to {nbytes} bytes decodes to text that can be written out again", "DEC.py", "_decb", {"nbytes": nbytes}, timeout=tmo * 3, twin="_decb_reach"))
     ctx.functions_encoded = [
+        "reuse._annotate.add_header_to_file -> header.find_and_replace_header / add_new_header -> extract.contains_reuse_info / extract_reuse_info (real chain; open() modelled, decoding may fail)",
+        "reuse.report.ProjectReport.bill_of_materials (licence-text section; open() modelled, decoding may fail)",
+        "reuse.extract.decoded_text_from_binary on symbolic bytes (CrossHair's symbolic UTF-8 codec)",
         "reuse.global_licensing.ReuseTOML.from_dict, AnnotationsItem.from_dict, converters and validators (executed under CrossHair per value shape)",
         "reuse.cli.common.ClickObj.project (error mapping; Project.from_directory stubbed to raise)",
         "reuse.report.ProjectReport.generate / ProjectSubsetReport.generate / _MultiprocessingContainer.__call__ / _process_error (FileReport.generate stubbed to raise per file)",
@@ -56,10 +64,14 @@ def run(ctx):
         "shape": "each key in turn takes every TOML type {absent,str,int,float,bool,datetime,list,table}, list/table elements again every type, nesting <= 2; leaves from 8 strings / 4 integers; the other keys hold valid values",
         "project errors": "every exception class Project.from_directory documents (parse, parse-type, parse-value, conflict, OSError and 4 subclasses) x root given or not x both include flags",
         "funnel": f"{nf} files, each succeeding or raising one of 11 exception classes",
+        "annotate content": "6 content kinds (plain, empty, unparseable expression on top / further down / alone, valid header + unparseable one further down) x 6 unparseable expressions x 4 file types x decodable or not x replace x skip-existing x fallback-dot-license",
+        "spdx licence texts": "1-2 LicenseRef- texts, each decodable or not",
+        "file bytes": f"every byte string of 1..{nbytes} bytes (covers every UTF-8 sequence length and every malformed prefix)",
     }
-    ctx.stubs = ["Project.from_directory (raises the chosen exception)", "FileReport.generate (raises the chosen exception or returns a minimal report)", "reuse.global_licensing._LICENSING.parse runs natively on concrete strings"]
+    ctx.stubs = ["open() in text mode: returns the text or raises UnicodeDecodeError (its documented contract on bytes that are not UTF-8) unless errors= says otherwise", "Project.from_directory (raises the chosen exception)", "FileReport.generate (raises the chosen exception or returns a minimal report)", "reuse.global_licensing._LICENSING.parse runs natively on concrete strings"]
     ctx.outside = [
-        "tomlkit's and python-debian's own parsers on arbitrary bytes; C-level decoding",
+        "tomlkit's and python-debian's own parsers on arbitrary bytes",
+        "file contents longer than the byte bound; expressions other than the listed unparseable ones (the licence parser is a third-party library run concretely)",
         "subcommands other than through these three shared funnels",
         "two malformed keys at once (thorough tier could add pairs; not claimed)",
     ]
@@ -77,6 +89,12 @@ def run(ctx):
                 return None
             key = ex.get("known_key") or f"{ex['focus']}|{ex['sig']}|{out}"
             return key, f"REUSE.toml {text!r} -> {out} instead of a GlobalLicensingParseError naming the file", {"toml": text}
+        if c.func == "_rd":
+            return f"annotate-content:{ex['why']}", f"annotate on a {ex['ext']} file with content {ex['content']!r} (expression {ex['bad_expression']!r}, undecodable={ex['undecodable']}, replace={ex['replace']}, skip_existing={ex['skip_existing']}): {ex['why']}", {"harness": "RD.py::_rd", "explain": ex}
+        if c.func == "_bomrd":
+            return f"spdx-licence-text:{ex['why']}", f"spdx with licence texts {ex['licences']} undecodable={ex['undecodable']}: {ex['why']}", {"harness": "RD.py::_bomrd", "explain": ex}
+        if c.func == "_decb":
+            return f"decode:{ex['why'][:40]}", f"file content {bytes(ex['bytes'])!r} is decoded to {ex['decoded']}: {ex['why']}", {"harness": "DEC.py::_decb", "explain": ex}
         if c.func == "_proj":
             return f"project:{ex['exception']}", f"ClickObj.project with Project.from_directory raising {ex['exception']}: {ex['outcome']}", {"harness": "C16.py::_proj", "explain": ex}
         return f"funnel:{ex['faults']}", f"per-file faults {ex['faults']} (subset={ex['subset']}): {ex['outcome']}", {"harness": "C16.py::_funnel", "explain": ex}
